@@ -21,7 +21,7 @@ SPEC = dict(
         "initial {pep440_version} text is what bumpver itself renders for the current version (setup only)",
         "legacy {..} layouts are exercised in C20/C06/C13; this check drives v2 patterns",
     ],
-    required=["update_ok", "show_ok", "shared_line_updates"],
+    required=["update_ok", "show_ok", "shared_line_updates", "updates_with_a_pattern_on_several_lines"],
     anchors=[("parse", "iter_matches"), ("v2rewrite", "rewrite_lines"), ("v2patterns", "normalize_pattern"),
              ("config", "_parse_raw_config")],
 )
@@ -76,6 +76,8 @@ def run_case(ctx, case):
             ctx.count("shared_line_updates")
         if m["globs"]:
             ctx.count("glob_entry_updates")
+        if m.get("repeated_occurrences"):
+            ctx.count("updates_with_a_pattern_on_several_lines")
         for prob in problems:
             cls, msg = prob[0], prob[1]
             if cls.startswith("pep440-occurrence"):
